@@ -88,7 +88,11 @@ class DataDir:
                 xor_key = hsh[1:9]
         shutil.rmtree(self.path, ignore_errors=True)
         os.makedirs(self.path)
-        for fno, segs in self.files.items():
+        order = list(self.files.items())
+        if os.environ.get('RBP_VERIF_NO_AMBIENT') is None:
+            # creation order of the blk files varies (it is the listing order on some file systems)
+            order.sort(key=lambda kv: hashlib.md5(self.path.encode() + str(kv[0]).encode()).digest())
+        for fno, segs in order:
             with open(os.path.join(self.path, name(fno)), 'wb') as f:
                 for at, data in segs:
                     if xor_key:
